@@ -103,3 +103,13 @@ def search(rng, bad_cases):
             for t in itertools.product(ALPHA, repeat=n):
                 for e in TYPES[ty][:3]:
                     yield line(ty, e, "".join(t))
+
+ENABLED = True
+LEVEL = "proof"
+LEVEL_TEXT = ("Theorems in coq/theories/Properties/C10.v: for every byte string, each validator of the model (a mirror of the winnow "
+              "combinator code) accepts exactly the strings of the specification grammar (elements joined by separators, per-type character "
+              "classes, length limit); GUID = 32 hex digits. The model is tied to the code by running every checked constructor of every "
+              "type on exhaustively enumerated short strings over a 12-class alphabet plus boundary lengths. Unbounded proof + differential "
+              "correspondence is the right level for a pure validator.")
+LEVEL_NOTE = ("Trusted: Coq kernel; the hand-written model of the validators and of winnow's combinators (Base/Winnow.v); the harness hnames; "
+              "inputs restricted to valid UTF-8 (&str API). Known finding: derive(Value)/derive(OwnedValue) conversions do not validate.")
